@@ -35,6 +35,11 @@ EXTRA = [
     "ga :- { p(X) } 2.",
     "ga :- 1 { p(X) ; q(X,Y) : p(Y) }.",
     "ga :- { p(X) }.",
+    "ga :- #sum{ : p(X) } >= 0.",
+    "ga(N) :- N = #count{ : hb }.",
+    "ga :- p(X), X \\ 0 = 1.",
+    "ga :- p(X), X / 0 > 1.",
+    "ga(X / 0) :- p(X).",
     # #inf / #sup, strings, classical negation, pools, intervals
     "ga(#inf). ga(#sup).",
     "ga(X) :- p(X), X > #inf, X < #sup.",
